@@ -3,27 +3,31 @@
    The four crypto functions are universally quantified: nothing is assumed about them. *)
 From Sekai Require Import Base.Prelude Model.Auth Model.C02Check Proofs.Auth.
 
-(* An accepted transaction was authorised by EVERY account it names as signer, for that account's
-   current sequence number: whatever keys are attached, whatever the modes and encodings.
-   Guard [sound_for]: the repaired code (both repairs), or no raw Ethereum message in the tx. *)
+(* HEADLINE (full strength, no guard on the transaction).  The tree as it is = the [repaired]
+   variant (the check script establishes this on every run with two probe transactions and the whole
+   differential run).  An accepted transaction was authorised by EVERY account it names as signer,
+   for that account's current sequence number: whatever message types, keys attached, sign modes
+   and signature encodings. *)
 Theorem C02_accept_authorised :
+  forall verify recover addr_of_pk eth_sender c s t s',
+  ante verify recover addr_of_pk eth_sender repaired c s t = Ok s' ->
+  Forall2 (Authorised verify recover addr_of_pk eth_sender c s t) (signers t) (t_slots t).
+Proof. intros until s'. apply accept_authorised. reflexivity. Qed.
+Print Assumptions C02_accept_authorised.
+
+(* the same for ANY setting of the two flags, under the guard [sound_for] (both repairs present, or
+   no raw Ethereum message in the transaction) *)
+Theorem C02_accept_authorised_guarded :
   forall verify recover addr_of_pk eth_sender v c s t s',
   sound_for v t = true ->
   ante verify recover addr_of_pk eth_sender v c s t = Ok s' ->
   Forall2 (Authorised verify recover addr_of_pk eth_sender c s t) (signers t) (t_slots t).
 Proof. exact accept_authorised. Qed.
-Print Assumptions C02_accept_authorised.
+Print Assumptions C02_accept_authorised_guarded.
 
-(* at full strength (no guard on the transaction) for the repaired code *)
-Theorem C02_accept_authorised_repaired :
-  forall verify recover addr_of_pk eth_sender c s t s',
-  ante verify recover addr_of_pk eth_sender repaired c s t = Ok s' ->
-  Forall2 (Authorised verify recover addr_of_pk eth_sender c s t) (signers t) (t_slots t).
-Proof. intros until s'. apply accept_authorised. reflexivity. Qed.
-Print Assumptions C02_accept_authorised_repaired.
-
-(* REFUTED for the code as it is (and for each half-repair): the raw Ethereum branch never ties the
-   recovered sender to the signer, and a signer accepted on the Ethereum path ends the loop *)
+(* About the OLD flags (the tree before commit 313a134, and each half-repair): the full statement is
+   REFUTED whenever one of the two repairs is missing -- the raw Ethereum branch never tied the
+   recovered sender to the signer, and a signer accepted on the Ethereum path ended the loop *)
 Theorem C02_accept_authorised_refuted_sender :
   forall v, v_check_sender v = false ->
   exists verify recover addr_of_pk eth_sender c s t s',
